@@ -75,6 +75,15 @@ def awc_race(reqs):
     return None
 
 
+def awc_shared_world(reqs):
+    for i, a in enumerate(reqs):
+        if a["k"] == "awc":
+            for j, b in enumerate(reqs):
+                if i != j and b["k"] in EVAL_KINDS and (b["w"] == a["x"] or (b["k"] == "awc" and b["x"] == a["x"])):
+                    return True
+    return False
+
+
 def classify(verdicts, cases, race=False):
     """Narrow keys for failures that come from add-world-with-change mutating under the read lock."""
     for v in verdicts:
@@ -91,7 +100,10 @@ def classify(verdicts, cases, race=False):
         elif key.startswith("crash:") or key.startswith("panic:"):
             # a fatal "concurrent map writes", a panic inside the overlay, or (race build) a data race report
             what = "data-race" if "DATA RACE" in (v.get("msg") or "") else key.split("@")[0]
-            if cls:
+            if what == "data-race" and awc_shared_world(c["reqs"]):
+                # any request evaluating on the world object that add-world-with-change mutates races with it
+                v["key"] = "awc-mutation-under-read-lock:data-race"
+            elif cls:
                 v["key"] = "awc-mutation-under-read-lock:" + cls
                 v["msg"] = "[%s] %s" % (what, v.get("msg") or "")
             elif race:
@@ -128,8 +140,10 @@ def run(ctx):
             len(serial_lines), len(cfgs), len(outcomes)))
     small = pairs if ctx.quick else pairs + rng.sample(triples, 250)
     # serial schedules of the protocol = the serial reference (SerialStep is not a second opinion)
-    sl.tlc(ctx, "MCService", cfg_text=sl.mc_cfg(3, serial=True, history=False, invariants=("SerialModeOK", "LockInv")),
-            files={"MCService.tla": sl.mc_module("MCService", CATALOGUE, small, emit_serial=False)}, timeout=600)
+    # (thorough only: in the quick tier the serial reference is bound by the serial replay on the real service below)
+    if not ctx.quick:
+        sl.tlc(ctx, "MCService", cfg_text=sl.mc_cfg(3, serial=True, history=False, invariants=("SerialModeOK", "LockInv")),
+               files={"MCService.tla": sl.mc_module("MCService", CATALOGUE, small, emit_serial=False)}, timeout=600)
     # termination under weak fairness (no VIEW, no history)
     sl.tlc(ctx, "MCService", cfg_text=sl.mc_cfg(3, history=False, properties=("Termination",), spec="FairSpec", view=False),
             files={"MCService.tla": sl.mc_module("MCService", CATALOGUE, small, emit_serial=False)}, timeout=1500)
@@ -196,7 +210,7 @@ def run(ctx):
             add(c)
     nserial = len(cases)
     # (b) concurrent runs
-    reps = ctx.pick(10, 60)
+    reps = ctx.pick(8, 60)
     conc_cfgs = cfgs if not ctx.quick else pairs + rng.sample(triples, 80)
     for g in conc_cfgs:
         for path in (("grpc", "ui") if (g in nonserial or rng.random() < 0.15) else ("grpc",)):
@@ -207,7 +221,7 @@ def run(ctx):
             creators = sum(1 for r in rs if r["w"] == "w2") >= 2 and not any(
                 (r["k"] == "del" and r["w"] == "w2") or (r["k"] == "awc" and r["x"] == "w2") for r in reqs_of(g))
             c.update({"serial": sorted(serial[g]), "model": sorted(model[g]),
-                      "reps": reps * (3 if heavy else (20 if creators else 1)),
+                      "reps": reps * (3 if heavy else (12 if creators else 1)),
                       "perturb": True, "cause": cause(g) if heavy else ""})
             add(c)
     nconc = len(cases) - nserial
